@@ -177,7 +177,7 @@ theorem slash_never_increases {sp sp' : SP} {slash : F64} (h : spKill sp slash =
   subst hd'
   simp only
   split at hb2
-  · rw [hb2]; exact Nat.le_refl _
+  · rw [hb2]
   · obtain ⟨n, hn, hle'⟩ := multFloat64_le d.balance (hb j d hd) m E hle
     rw [hred, hn] at hb2
     injection hb2 with hb2
